@@ -139,5 +139,7 @@ pub(crate) trait Session {
         disposition: Disposition,
     ) -> Result<SessionFrame, Self::Error>;
 
-    fn on_outgoing_detach(&mut self, detach: Detach) -> SessionFrame;
+    /// `None`: the detach is held back behind transfers of its link that wait for the peer's
+    /// window, and goes out with them
+    fn on_outgoing_detach(&mut self, detach: Detach) -> Option<SessionFrame>;
 }
